@@ -761,7 +761,10 @@ func writerBuiltinOracle(cfg wCfg) (out []string) {
 			r.Use(func(c *rux.Context) { c.Next() })
 		}
 		r.GET("/p", func(c *rux.Context) { c.WriteString("p") })
-		for _, rq := range [][3]string{{"OPTIONS", "/p", "200"}, {"DELETE", "/p", "405"}, {"GET", "/none", "404"}, {"OPTIONS", "/none", "404"}} {
+		// a relayed answer without body (304 Not Modified, 202 with an empty upstream body): c.Stream of a reader that yields nothing
+		r.GET("/relay", func(c *rux.Context) { c.Stream(304, "text/plain", http.NoBody) })
+		r.GET("/relay2", func(c *rux.Context) { c.Stream(202, "text/plain", strings.NewReader("")) })
+		for _, rq := range [][3]string{{"OPTIONS", "/p", "200"}, {"DELETE", "/p", "405"}, {"GET", "/none", "404"}, {"OPTIONS", "/none", "404"}, {"GET", "/relay", "304"}, {"GET", "/relay2", "202"}} {
 			rec := newRecWriter(cfg.ct)
 			func() {
 				defer func() { _ = recover() }()
